@@ -1,5 +1,6 @@
 import GeomV.C17.Model
 import GeomV.C17.Spec
+import GeomV.C17.GoFmt
 import Std.Data.HashMap
 /-!
 Driver for C17.  `geomv_c17 judge` reads lines
@@ -113,6 +114,9 @@ def judgeSeq (line : String) : String :=
           else
             -- the strconv contract, checked on every finite coordinate that occurs
             let contractBad := table.filter fun (b, _) => Dec.isFiniteBits b && !numFmtHolds fmt Dec.toBits b
+            -- T2 tie of the layout model `goFmtG` (GoFmt.lean, hypotheses of C17_goG_passes/_shortest): Go's own
+            -- rendering of every finite coordinate is the 'g'/shortest layout of its own digits
+            let layoutBad := table.filter fun (b, r) => Dec.isFiniteBits b && !isGoLayout r
             let specVerdict : Option String :=
               if guard && fin then
                 match parse Dec.toBits txt with
@@ -127,6 +131,7 @@ def judgeSeq (line : String) : String :=
             | some why => s!"SPEC {cls} {why}"
             | none =>
               if !contractBad.isEmpty then s!"DIFF {cls} strconv-contract-NumFmt-fails-on {u64Hex (contractBad.headD (0, [])).1}"
+              else if !layoutBad.isEmpty then s!"DIFF {cls} strconv-rendering-is-not-the-formatDigits-layout-goFmtG-of-its-digits {u64Hex (layoutBad.headD (0, [])).1}"
               else match m with
               | .ok mt =>
                 if mt == txt then s!"OK {cls}"
